@@ -6,6 +6,7 @@ import (
 	"errors"
 	"fmt"
 	"strings"
+	"sync"
 	"time"
 
 	"github.com/hprose/hprose-golang/v3/io"
@@ -23,6 +24,18 @@ type c20Case struct {
 	Mock      bool   `json:"mock"`
 	Outs      string `json:"outs"`    // one of O E P per call
 	GapsUs    []int  `json:"gaps_us"` // optional sleep before call k
+	// concurrent scenario: steps ["start",k,"O|E|P"], ["release",k], ["sleep",us], ["probe","O|E|P"]
+	Script [][]interface{} `json:"script,omitempty"`
+}
+
+type c20Step struct {
+	Op      string `json:"op"`
+	K       int    `json:"k"`
+	B       int64  `json:"b"`
+	A       int64  `json:"a"`
+	Entered bool   `json:"entered"`       // the downstream handler was reached (call forwarded and now held)
+	R       string `json:"r,omitempty"`   // result letter once the call has returned
+	Msg     string `json:"msg,omitempty"`
 }
 
 type c20Call struct {
@@ -36,6 +49,7 @@ type c20Call struct {
 type c20Obs struct {
 	ID    int       `json:"id"`
 	Calls []c20Call `json:"calls"`
+	Steps []c20Step `json:"steps,omitempty"`
 }
 
 func c20Run(line []byte, out *json.Encoder) error {
@@ -56,6 +70,10 @@ func c20Run(line []byte, out *json.Encoder) error {
 				}))
 		}
 		cb := circuitbreaker.New(opts...)
+		if len(c.Script) > 0 {
+			obs.Steps = runScript(c, cb)
+			return out.Encode(&obs)
+		}
 		client := core.NewClient("mock://c20")
 		invocations := 0
 		k := 0
@@ -108,6 +126,136 @@ func c20Run(line []byte, out *json.Encoder) error {
 		}
 	}
 	return nil
+}
+
+// classify maps what the caller got to a letter.
+func classify(res []interface{}, err error, tag string) (string, string) {
+	switch {
+	case err == circuitbreaker.ErrBreaker:
+		return "B", ""
+	case isPanicErr(err) && strings.Contains(err.Error(), "boom-"+tag):
+		return "P", ""
+	case err != nil && err.Error() == "down-"+tag:
+		return "E", ""
+	case err == nil && len(res) == 1 && res[0] == "mock":
+		return "M", ""
+	case err == nil && len(res) == 1 && res[0] == "ok-"+tag:
+		return "O", ""
+	}
+	return "?", fmt.Sprintf("res=%v err=%v", res, err)
+}
+
+type heldCall struct {
+	release chan struct{}
+	done    chan struct{}
+	res     []interface{}
+	err     error
+}
+
+// runScript: several calls in flight at once; the scripted downstream handler parks each
+// forwarded call until the script releases it, so the order of the plugin's atomic
+// operations is exactly the script order (entry part at "start", settle part at "release").
+func runScript(c c20Case, cb *circuitbreaker.CircuitBreaker) []c20Step {
+	client := core.NewClient("mock://c20")
+	entered := make(chan string, 64)
+	calls := map[int]*heldCall{}
+	outcomes := map[string]string{}
+	releases := map[string]chan struct{}{}
+	var mu sync.Mutex
+	scripted := func(ctx context.Context, request []byte, next core.NextIOHandler) ([]byte, error) {
+		tag := core.GetClientContext(ctx).Items().GetString("tag")
+		mu.Lock()
+		o, rel := outcomes[tag], releases[tag]
+		mu.Unlock()
+		entered <- tag
+		<-rel
+		switch o {
+		case "O":
+			enc := new(io.Encoder).Simple(true)
+			enc.WriteTag(io.TagResult)
+			enc.Encode("ok-" + tag)
+			enc.WriteTag(io.TagEnd)
+			return enc.Bytes(), nil
+		case "E":
+			return nil, errors.New("down-" + tag)
+		}
+		panic("boom-" + tag)
+	}
+	client.Use(cb)
+	client.Use(core.IOHandler(scripted))
+	var steps []c20Step
+	launch := func(k int, o string) (*heldCall, string, bool) {
+		tag := fmt.Sprintf("%d", k)
+		h := &heldCall{release: make(chan struct{}), done: make(chan struct{})}
+		mu.Lock()
+		outcomes[tag] = o
+		releases[tag] = h.release
+		mu.Unlock()
+		go func() {
+			cc := core.NewClientContext()
+			cc.Items().Set("tag", tag)
+			h.res, h.err = client.InvokeContext(core.WithContext(context.Background(), cc), "f", nil)
+			close(h.done)
+		}()
+		select {
+		case <-entered:
+			return h, tag, true
+		case <-h.done:
+			return h, tag, false
+		}
+	}
+	for _, st := range c.Script {
+		op, _ := st[0].(string)
+		step := c20Step{Op: op}
+		switch op {
+		case "sleep":
+			us, _ := st[1].(float64)
+			step.B = time.Now().UnixNano()
+			time.Sleep(time.Duration(us) * time.Microsecond)
+			step.A = time.Now().UnixNano()
+		case "start", "probe":
+			k := len(calls) + 1000
+			o := ""
+			if op == "start" {
+				kf, _ := st[1].(float64)
+				k = int(kf)
+				o, _ = st[2].(string)
+			} else {
+				o, _ = st[1].(string)
+			}
+			step.K = k
+			step.B = time.Now().UnixNano()
+			h, tag, in := launch(k, o)
+			step.Entered = in
+			calls[k] = h
+			if op == "probe" && in {
+				close(h.release)
+				<-h.done
+			}
+			step.A = time.Now().UnixNano()
+			if !in || op == "probe" {
+				step.R, step.Msg = classify(h.res, h.err, tag)
+			}
+		case "release":
+			kf, _ := st[1].(float64)
+			k := int(kf)
+			step.K = k
+			h := calls[k]
+			step.B = time.Now().UnixNano()
+			if h != nil {
+				select {
+				case <-h.done: // was rejected at start: nothing to release
+				default:
+					close(h.release)
+					<-h.done
+				}
+				step.R, step.Msg = classify(h.res, h.err, fmt.Sprintf("%d", k))
+			}
+			step.A = time.Now().UnixNano()
+		}
+		steps = append(steps, step)
+	}
+	return steps
 }
 
 func isPanicErr(err error) bool {
